@@ -8,6 +8,7 @@ import (
 	"os/exec"
 	"path/filepath"
 	"runtime"
+	"runtime/debug"
 	"strings"
 	"sync"
 	"sync/atomic"
@@ -288,6 +289,13 @@ func checkAliasing(c AliasCase) error {
 		ks = append(ks, kept{cp.Vector(), ""})
 		ks[len(ks)-1].clone = strings.Clone(ks[len(ks)-1].s)
 	}
+	// a result must not be tied to the identity (address) of an argument string that may since have
+	// been freed: parse a heap string, drop it, collect, then parse other strings of the same length
+	for _, v := range c.Objs {
+		if err := checkAddressReuse(v); err != nil {
+			return err
+		}
+	}
 	a := newActor(objs)
 	for _, op := range c.History {
 		a.exec(op)
@@ -306,6 +314,198 @@ func checkAliasing(c AliasCase) error {
 		}
 	}
 	return nil
+}
+
+// sameLengthVariants returns valid vectors of the same version and byte length as v.S whose first
+// metric carries each of its other (equally long) values.
+func sameLengthVariants(v gen.Valid) []string {
+	ver := spec.Versions[v.Ver]
+	if len(v.Written) == 0 {
+		return nil
+	}
+	var out []string
+	for _, abv := range v.Written[:min(3, len(v.Written))] {
+		m := ver.Metric(abv)
+		for _, val := range m.Vals {
+			if val != v.A[abv] && len(val) == len(v.A[abv]) {
+				a := spec.Assignment(v.A).Clone()
+				a[abv] = val
+				out = append(out, spec.Spell(ver, a, v.Written))
+			}
+		}
+	}
+	return out
+}
+
+var sinkHeapStrings []string
+
+func checkAddressReuse(v gen.Valid) error {
+	p := adapt.Pkgs[v.Ver]
+	vars := sameLengthVariants(v)
+	if len(vars) == 0 {
+		return nil
+	}
+	func() {
+		s1 := strings.Clone(v.S) // a heap string that dies at the end of this closure
+		p.SafeParse(s1)
+	}()
+	runtime.GC()
+	sinkHeapStrings = sinkHeapStrings[:0]
+	for i := 0; i < 4; i++ {
+		for _, w := range vars {
+			s2 := strings.Clone(w) // same size class: may reuse the freed slot
+			sinkHeapStrings = append(sinkHeapStrings, s2)
+			want, ok := spec.Parse(p.V, s2)
+			o, err, pan := p.SafeParse(s2)
+			if pan != nil || !ok || err != nil || o == nil {
+				continue // C01 owns acceptance
+			}
+			if e := gets(p, o, want, "ParseVector("+s2+") after a string of the same length was parsed, dropped and collected"); e != nil {
+				return e
+			}
+		}
+	}
+	return nil
+}
+
+// ---- (g) long runs: counters that wrap ------------------------------------------------------
+
+// LongRun: a few calls repeated N times (N around 2^8 and 2^16) on the package, then a probe that
+// must give the result it gives in a fresh state and, for parses, the reference parser's result.
+type LongRun struct {
+	Repeat []WOp `json:"repeat"`
+	N      int   `json:"n"`
+	Probes []WOp `json:"probes"`
+}
+
+func checkLongRun(c LongRun) error {
+	shared := sharedObjects()
+	fresh := func(op WOp) string { return newActor(shared).exec(op) }
+	before := make([]string, len(c.Probes))
+	for i, op := range c.Probes {
+		before[i] = fresh(op)
+	}
+	a := newActor(shared)
+	for i := 0; i < c.N; i++ {
+		for _, op := range c.Repeat {
+			a.exec(op)
+		}
+	}
+	for i, op := range c.Probes {
+		if got := fresh(op); got != before[i] {
+			return fmt.Errorf("%s(v%s %q) gives %q in a fresh process state and %q after %d repetitions of %d other calls", op.Kind, spec.Versions[op.Ver%4].Name, string(op.S), before[i], got, c.N, len(c.Repeat))
+		}
+		if op.Kind == "parse" {
+			p := adapt.Pkgs[op.Ver]
+			want, member := spec.Parse(p.V, string(op.S))
+			o, err, pan := p.SafeParse(string(op.S))
+			if pan != nil {
+				return fmt.Errorf("ParseVector(%q) panicked after a long run: %v", string(op.S), pan)
+			}
+			if member != (err == nil) {
+				return fmt.Errorf("after %d repetitions v%s ParseVector(%q) err=%v but well-formed=%v", c.N, p.V.Name, string(op.S), err, member)
+			}
+			if member {
+				if e := gets(p, o, want, "after a long run ParseVector("+string(op.S)+")"); e != nil {
+					return e
+				}
+			}
+		}
+	}
+	return nil
+}
+
+// ---- (h) exact call counts from a purged pool -------------------------------------------------
+
+// ExactCount: after the package's pools have been purged (two GC cycles) and with the collector off
+// and one P, exactly N parses of vectors without optional metrics are made, then the probes are
+// parsed. N is 2^8-1, 2^8, 2^16-1 or 2^16: a generation counter or fill level kept in recycled state
+// wraps or overflows exactly there.
+type ExactCount struct {
+	Ver    int        `json:"ver"`
+	N      int        `json:"n"`
+	Warm   gen.BStr   `json:"warm"`
+	Probes []gen.BStr `json:"probes"`
+}
+
+func checkExactCount(c ExactCount) error {
+	if c.Ver < 0 || c.Ver > 3 || c.N < 0 || c.N > 1<<17 {
+		return nil
+	}
+	p := adapt.Pkgs[c.Ver]
+	type res struct {
+		state string
+		err   string
+	}
+	eval := func(s string) res {
+		o, err, pan := p.SafeParse(s)
+		if pan != nil {
+			return res{"panic", fmt.Sprint(pan)}
+		}
+		if o == nil {
+			return res{"nil", errText(err)}
+		}
+		return res{o.State(), errText(err)}
+	}
+	want := make([]res, len(c.Probes))
+	for i, s := range c.Probes {
+		want[i] = eval(string(s))
+	}
+	oldProcs := runtime.GOMAXPROCS(1)
+	runtime.GC()
+	runtime.GC()
+	oldGC := debug.SetGCPercent(-1)
+	defer func() {
+		debug.SetGCPercent(oldGC)
+		runtime.GOMAXPROCS(oldProcs)
+	}()
+	warm := string(c.Warm)
+	for i := 0; i < c.N; i++ {
+		p.Parse(warm)
+	}
+	for i, s := range c.Probes {
+		got := eval(string(s))
+		if member := spec.Member(p.V, string(s)); member != (got.err == "nil") && got.state != "panic" {
+			return fmt.Errorf("v%s ParseVector(%q) as call number %d after the pools were purged: err=%s but well-formed=%v", p.V.Name, string(s), c.N+i+1, got.err, member)
+		}
+		if got != want[i] {
+			return fmt.Errorf("v%s ParseVector(%q) gives %v normally and %v as call number %d after the pools were purged (the %d calls before it parsed %q)", p.V.Name, string(s), want[i], got, c.N+i+1, c.N, warm)
+		}
+	}
+	return nil
+}
+
+func exactCountCases() []ExactCount {
+	var out []ExactCount
+	for vi, v := range spec.Versions {
+		var warm string
+		var probes []gen.BStr
+		for _, r := range gen.Representatives() {
+			if r.Ver != vi {
+				continue
+			}
+			if warm == "" && len(r.Written) == len(v.Base()) {
+				warm = r.S
+			}
+		}
+		for _, r := range gen.Representatives() {
+			if r.Ver == vi && r.S != warm {
+				probes = append(probes, gen.BStr(r.S)) // vectors with optional metrics never seen during the warm-up
+			}
+		}
+		probes = append(probes, gen.BStr(warm[:len(warm)-4]), gen.BStr(warm)) // a truncated vector, and the warm-up vector itself
+		for _, n := range []int{255, 256, 65535, 65536} {
+			// each probe in turn is the first call after the warm-up
+			for k := range probes {
+				rot := append(append([]gen.BStr{}, probes[k:]...), probes[:k]...)
+				out = append(out, ExactCount{Ver: vi, N: n, Warm: gen.BStr(warm), Probes: rot})
+				if n > 1000 && k >= 1 {
+					break // the long warm-ups are expensive: two rotations each
+				}
+			}
+		}
+	}
+	return out
 }
 
 // ---- (d) interleaving -------------------------------------------------------
@@ -795,6 +995,60 @@ func TestC14(t *testing.T) {
 			return w
 		}, check)
 	}
+	// (h) exact counts (deterministic family; sequential, so no subtest is needed)
+	if env.Shards <= 1 {
+		ec := exactCountCases()
+		if !doReplay(h, "exact-count", checkExactCount) {
+			for _, c := range ec {
+				if err := safely(checkExactCount, c); err != nil {
+					h.fail("exact-count", c, err)
+				}
+			}
+			h.R.AddExact(int64(len(ec)), int64(len(ec)))
+			h.R.Count("exact-count cases (pools purged, N in {255,256,65535,65536} warm-up parses, then probes)", int64(len(ec)))
+			h.R.Sample("exact-count", ec[len(ec)-1])
+		}
+	}
+	// (g) long runs
+	Rapid(h, "long-run", env.Scale(12, 120), func(rt *rapid.T) LongRun {
+		vi := gen.Version(rt)
+		c := LongRun{N: []int{255, 256, 257, 65535, 65536, 65537, 70000}[rapid.IntRange(0, 6).Draw(rt, "n")]}
+		// the repeated calls: parses of a few vectors WITHOUT optional metrics (so that some package state
+		// stays untouched for the whole run), sometimes a rejected one, sometimes a Vector()/score call
+		for i, k := 0, rapid.IntRange(1, 3).Draw(rt, "nrep"); i < k; i++ {
+			switch rapid.IntRange(0, 5).Draw(rt, "repkind") {
+			case 0:
+				s, _ := gen.Mutate(rt, gen.ValidVector(rt, vi))
+				c.Repeat = append(c.Repeat, WOp{Kind: "parse", Ver: vi, S: gen.BStr(s)})
+			case 1:
+				c.Repeat = append(c.Repeat, WOp{Kind: []string{"vector", "scores"}[rapid.IntRange(0, 1).Draw(rt, "ro")], Ver: vi})
+			default:
+				r := gen.Representatives()
+				var base []gen.Valid
+				for _, x := range r {
+					if x.Ver == vi && (x.Layout == "base" || len(x.Written) == len(spec.Versions[vi].Base())) {
+						base = append(base, x)
+					}
+				}
+				c.Repeat = append(c.Repeat, WOp{Kind: "parse", Ver: vi, S: gen.BStr(base[rapid.IntRange(0, len(base)-1).Draw(rt, "basevec")].S)})
+			}
+		}
+		// the probes: vectors WITH optional metrics, a truncated one, and a random call
+		c.Probes = append(c.Probes, WOp{Kind: "parse", Ver: vi, S: gen.BStr(gen.ValidVector(rt, vi).S)})
+		for _, r := range gen.Representatives() {
+			if r.Ver == vi {
+				c.Probes = append(c.Probes, WOp{Kind: "parse", Ver: vi, S: gen.BStr(r.S)})
+			}
+		}
+		full := gen.ValidVector(rt, vi).S
+		c.Probes = append(c.Probes, WOp{Kind: "parse", Ver: vi, S: gen.BStr(full[:rapid.IntRange(0, len(full)).Draw(rt, "cut")])}, drawOp(rt, false))
+		h.R.Case(fmt.Sprintf("long run v%s n=%d", spec.Versions[vi].Name, c.N), fmt.Sprintf("LONG%v", c))
+		h.R.Count("calls made inside long runs", int64(c.N*len(c.Repeat)))
+		if h.R.WantSample("long-run") {
+			h.R.Sample("long-run", map[string]any{"n": c.N, "repeat": c.Repeat, "probes": len(c.Probes)})
+		}
+		return c
+	}, checkLongRun)
 	// (e) hot loops: every (function, version) pair at two GOMAXPROCS values
 	type hcombo struct {
 		kind string
